@@ -2,7 +2,7 @@
    Model: Codec/JsonDoc.v (to_dict, isotherm_to_json, isotherm_from_json, the constructors) over the GENERATED tables of
    Gen/TablesGen.v; tied to the implementation by the correspondence part of ./check C06. Property theorems only. *)
 From Coq Require Import QArith ZArith String List Bool.
-From PG Require Import Lib.Num Lib.Py Codec.PyVal Gen.TablesGen Codec.JsonDoc Codec.JsonRoundtrip.
+From PG Require Import Lib.Num Lib.Py Codec.PyVal Gen.TablesGen Codec.JsonDoc Codec.JsonRoundtrip Codec.Census.
 Import ListNotations.
 Open Scope string_scope.
 
@@ -40,6 +40,47 @@ Theorem document_ignores_caches :
   forall i, length (i_units i) = length unit_params -> export_doc (clear_caches i) = export_doc i.
 Proof. exact export_doc_ignores_caches. Qed.
 Print Assumptions document_ignores_caches.
+
+(* the to_dict of the model is the interpretation of BaseIsotherm.to_dict as translated statement by statement from the current
+   source (Gen/TablesGen.v to_dict_program) *)
+Theorem to_dict_model_is_source_program :
+  forall i, length (i_units i) = length unit_params -> td_run i ([], []) to_dict_program = Some (to_dict i).
+Proof. exact to_dict_is_source_program. Qed.
+Print Assumptions to_dict_model_is_source_program.
+
+(* the attribute census of the model is closed: no method of the three classes binds a name on the isotherm object outside the
+   census of its class (the attributes the model's vars(self) ranges over) and its reserved list (table generated from the source:
+   assignments, augmented assignments, deletions, loop / with targets, setattr with a literal name; computed names abort) *)
+Theorem attribute_census_closed :
+  forall c m k l a, In (c, m, k, l) method_assigns -> In a l -> In a (class_census c ++ class_reserved_of c).
+Proof. exact census_closed. Qed.
+Print Assumptions attribute_census_closed.
+
+(* a read-only query performed BEFORE the export cannot change the document: every query (method or property that is not a
+   constructor, a property setter or a convert_* method) binds only names that to_dict discards (reserved, and not the source of
+   one of its pops) and does not write into the metadata dictionary; to_dict is independent of the values of discarded names *)
+Theorem queries_bind_only_discarded_names :
+  forall c m k l a, In (c, m, k, l) method_assigns -> is_query m k = true -> In a l ->
+  In a (class_reserved_of c) /\ ~ In a popped_sources /\ a <> "properties[]".
+Proof. exact queries_bind_only_discarded. Qed.
+Print Assumptions queries_bind_only_discarded_names.
+Theorem to_dict_ignores_discarded_names :
+  forall i env env', (forall a, mem a (discarded (class_reserved (i_body i))) = false -> env a = env' a) ->
+  to_dict_env i env = to_dict_env i env'.
+Proof. exact to_dict_ignores_discarded. Qed.
+Print Assumptions to_dict_ignores_discarded_names.
+Example to_dict_env_is_the_model : forall i, to_dict_env i (attr_val i) = to_dict i.
+Proof. exact to_dict_env_model. Qed.
+Print Assumptions to_dict_env_is_the_model.
+Example discarded_names_witnesses :
+  mem "l_interpolator" (discarded point_reserved) = true /\ mem "p_interpolator" (discarded point_reserved) = true /\
+  mem "_temperature" (discarded point_reserved) = false /\ mem "properties" (discarded point_reserved) = false.
+Proof. exact caches_are_discarded. Qed.
+Print Assumptions discarded_names_witnesses.
+Example queries_binding_something_exist :
+  existsb (fun e => let '(_, m, k, l) := e in is_query m k && match l with [] => false | _ => true end) method_assigns = true.
+Proof. exact queries_exist. Qed.
+Print Assumptions queries_binding_something_exist.
 
 (* user-assigned all-adsorption marks on data whose pressure maximum is not last come back with a guessed desorption branch *)
 Theorem json_all_ads_user_branch_refuted :
